@@ -35,7 +35,13 @@ def run(tier):
         if q and (f0 * 5 + n0 * 3 + f1 + d0 + d1) % 3:
             continue
         jobs.append(dict(base, harness="VerifC15Profiles", params={"p0f": f0, "p0n": n0, "p0a": (f0 + n0) % 3, "p0d": d0, "p1f": f1, "p1n": 0, "p1a": 0, "p1d": d1}))
+    for n in (3, 4, 5):
+        for k in range(1, n + 1):
+            for d in (0, 1, 2):
+                if d > k:
+                    continue
+                jobs.append(dict(base, harness="VerifC15JDKProfile", params={"n": n, "k": k, "d": d}))
     return run_property("C15", tier, [Group("maven", jobs)],
-                        required_covers=["fully resolved", "left unresolved", "resolved", "unresolved", "same key in child and parent", "explicit property named like a prefixed built-in", "nested import against a later import", "a fully specified dependency still takes managed exclusions", "a profile activated by its OS criteria", "default profiles used because no profile is active", "a default profile left out because another profile is active"],
-                        assumptions=["only the termination / placeholder clause and precedence lemmas are decided (property tables: child over parent, explicit over un-prefixed built-ins, prefixed built-ins over explicit; dependencyManagement imports depth-first in declaration order, first declaration wins; management fills in exactly the empty ones of version, scope and exclusions; profiles: OS criteria family/name/arch not case sensitive with ! negation, all stated criteria must allow the fixed OS, default profiles only when none is active, active profiles' dependencies after the project's and their properties over it); equality with Maven's own model builder is outside this technique"],
+                        required_covers=["fully resolved", "left unresolved", "resolved", "unresolved", "same key in child and parent", "explicit property named like a prefixed built-in", "nested import against a later import", "a fully specified dependency still takes managed exclusions", "a profile activated by its OS criteria", "default profiles used because no profile is active", "a default profile left out because another profile is active", "a jdk value that is a prefix of the JDK version", "a jdk value that differs in its major or minor component"],
+                        assumptions=["only the termination / placeholder clause and precedence lemmas are decided (property tables: child over parent, explicit over un-prefixed built-ins, prefixed built-ins over explicit; dependencyManagement imports depth-first in declaration order, first declaration wins; management fills in exactly the empty ones of version, scope and exclusions; profiles: OS criteria family/name/arch not case sensitive with ! negation, all stated criteria must allow the fixed OS, default profiles only when none is active, active profiles' dependencies after the project's and their properties over it; a plain jdk value activates when it is a dotted prefix of the JDK version of 3-5 components and not when it differs in the first or second component, digit-prefix cases like 1 vs 11 left out); equality with Maven's own model builder is outside this technique"],
                         bounds={"keys": 3, "segments": 2 if q else 3, "arbitrary_subject_len": 5 if q else 7})
